@@ -128,6 +128,13 @@ func (t *Table) validateAttributeDefinition(ks keySchema, message string) error 
 		return types.NewError("ValidationException", fmt.Sprintf("%sRange Key not specified in Attribute Definitions.", message), nil)
 	}
 
+	// a key attribute is a string, a number or a binary: the key strings are only defined for these types
+	for _, name := range []string{ks.HashKey, ks.RangeKey} {
+		if typ := t.AttributesDef[name]; name != "" && typ != "S" && typ != "N" && typ != "B" {
+			return types.NewError("ValidationException", fmt.Sprintf("%sMember must satisfy enum value set: [B, N, S]; attribute %q has type %q", message, name, typ), nil)
+		}
+	}
+
 	return nil
 }
 
